@@ -64,23 +64,24 @@ template <class F> static int guarded(F f)
 static const char *signame(int s) { return s == SIGSEGV ? "SIGSEGV" : (s == SIGBUS ? "SIGBUS" : (s == SIGFPE ? "SIGFPE" : "SIGNAL")); }
 
 // ------------------------------------------------------------------ common helpers
-static const mpt::type_traits *T_C, *T_Y, *T_I;
+static const mpt::type_traits *T_C, *T_Y, *T_I, *T_N, *T_D;
 static void warm()
 {
 	static bool done = false;
 	if (done) return;
 	done = true;
 	guard_install();
-	T_C = mpt::mpt_type_traits('c'); T_Y = mpt::mpt_type_traits('y'); T_I = mpt::mpt_type_traits('i');
+	T_C = mpt::mpt_type_traits('c'); T_Y = mpt::mpt_type_traits('y'); T_I = mpt::mpt_type_traits('i'); T_N = mpt::mpt_type_traits('n'); T_D = mpt::mpt_type_traits('d');
 	mpt::buffer *b = mpt::_mpt_buffer_alloc(1, 0); if (b) b->unref();   // allocation granularity singleton
 }
 // the ledger table is 4 MB: clearing it for every system would dominate the run; systems never overlap in time,
 // so the live count at construction is the baseline and the table is cleared only now and then
 static size_t g_lbase = 0;
 static void ledger_base() { static unsigned n = 0; if ((n++ & 2047) == 0) ledger_reset(); g_lbase = ledger_live(); }
-static int trid(const mpt::type_traits *t) { return !t ? 0 : (t == T_C ? 1 : (t == T_Y ? 2 : (t == T_I ? 3 : 9))); }
-static const char *trname(const mpt::type_traits *t) { static const char *n[] = { "raw", "'c'", "'y'", "'i'" }; int i = trid(t); return i < 4 ? n[i] : "other"; }
-static const mpt::type_traits *trsel(int i) { return i == 1 ? T_C : (i == 2 ? T_Y : (i == 3 ? T_I : 0)); }
+static int trid(const mpt::type_traits *t) { return !t ? 0 : (t == T_C ? 1 : (t == T_Y ? 2 : (t == T_N ? 3 : (t == T_I ? 4 : (t == T_D ? 5 : 9))))); }
+static const char *trname(const mpt::type_traits *t) { static const char *n[] = { "raw", "'c'", "'y'", "'n'", "'i'", "'d'" }; int i = trid(t); return i < 6 ? n[i] : "other"; }
+static const mpt::type_traits *trsel(int i) { return i == 1 ? T_C : (i == 2 ? T_Y : (i == 3 ? T_N : (i == 4 ? T_I : (i == 5 ? T_D : 0)))); }
+static size_t esize_of(mpt::buffer *b) { return b && b->_content_traits && b->_content_traits->size > 1 ? b->_content_traits->size : 1; }
 static uint8_t *bdata(mpt::buffer *b) { return (uint8_t *) (b + 1); }
 static const size_t PATN = 1024;
 static uint8_t PAT[PATN], ZERO[PATN];
@@ -252,8 +253,8 @@ static_assert(sizeof(mpt::slice) == sizeof(H), "slice layout");
 static_assert(sizeof(mpt::array) == sizeof(mpt::buffer *), "array layout");
 struct Mdl { const mpt::type_traits *tr; std::vector<uint8_t> b; };
 
-enum RK { C_APPEND, C_INSERT, C_SLICE, C_SET, C_RESERVE, C_REDUCE, C_PRINTF, C_STRING, C_CUT, C_BINSERT, C_BSET, C_CLONE, R_SWAP, S_ASSIGN, S_CLEAR, S_WRITE,
-          X_APPEND, X_INSERT, X_PREPEND, X_SET, X_ASSIGN, X_CLEAR, X_FROMSLICE, X_ADD, X_PRINTF, X_STRING, X_SETVALUE, X_SETREF, XS_FROM, XS_CLEAR, XS_SHIFT, XS_TRIM, XS_WRITE };
+enum RK { C_APPEND, C_INSERT, C_SLICE, C_SET, C_RESERVE, C_REDUCE, C_PRINTF, C_STRING, C_CUT, C_BINSERT, C_BSET, C_CLONE, R_SWAP, S_ASSIGN, S_CLEAR, S_WRITE, S_TAKE, S_CONSUME,
+          X_APPEND, X_INSERT, X_PREPEND, X_SET, X_ASSIGN, X_CLEAR, X_FROMSLICE, X_ADD, X_PRINTF, X_STRING, X_SETVALUE, X_SETREF, XS_FROM, XS_CLEAR, XS_SHIFT, XS_TRIM, XS_WRITE, XS_TAKE };
 struct Inst { int k, a, b, c; };
 static const char *Pn[] = { "0", "1", "used-1", "used", "used+2" };
 static const char *Ln[] = { "0", "1", "3", "left-1", "left", "left+1" };
@@ -280,7 +281,9 @@ static void build_tables()
 	c.push_back(Inst{R_SWAP, 0, 0, 0});
 	for (int w = 0; w < 2; ++w) for (int win = 0; win < 4; ++win) c.push_back(Inst{S_ASSIGN, w, win, 0});
 	c.push_back(Inst{S_CLEAR, 0, 0, 0});
-	for (int ni = 0; ni < 4; ++ni) for (int zi = 0; zi < 6; ++zi) c.push_back(Inst{S_WRITE, ni, zi, 1});
+	for (int win = 0; win < 4; ++win) c.push_back(Inst{S_TAKE, 0, win, 0});
+	c.push_back(Inst{S_CONSUME, 0, 0, 0}); c.push_back(Inst{S_CONSUME, 1, 0, 0});
+	for (int ni = 0; ni < 4; ++ni) for (int zi = 0; zi < 7; ++zi) c.push_back(Inst{S_WRITE, ni, zi, 1});
 	c.push_back(Inst{S_WRITE, 1, 1, 0}); c.push_back(Inst{S_WRITE, 2, 2, 0}); c.push_back(Inst{S_WRITE, 1, 5, 0});
 
 	for (int li = 0; li < 6; ++li) x.push_back(Inst{X_APPEND, li, 1, 0});
@@ -297,7 +300,8 @@ static void build_tables()
 	x.push_back(Inst{R_SWAP, 0, 0, 0});
 	x.push_back(Inst{XS_FROM, 0, 0, 0}); x.push_back(Inst{XS_FROM, 1, 0, 0}); x.push_back(Inst{XS_CLEAR, 0, 0, 0});
 	for (int n = 0; n < 6; ++n) { x.push_back(Inst{XS_SHIFT, n, 0, 0}); x.push_back(Inst{XS_TRIM, n, 0, 0}); }
-	for (int ni = 0; ni < 4; ++ni) for (int zi = 0; zi < 6; ++zi) x.push_back(Inst{XS_WRITE, ni, zi, 1});
+	x.push_back(Inst{XS_TAKE, 0, 0, 0});
+	for (int ni = 0; ni < 4; ++ni) for (int zi = 0; zi < 7; ++zi) x.push_back(Inst{XS_WRITE, ni, zi, 1});
 	x.push_back(Inst{XS_WRITE, 1, 1, 0}); x.push_back(Inst{XS_WRITE, 2, 2, 0}); x.push_back(Inst{XS_WRITE, 1, 5, 0});
 }
 
@@ -317,6 +321,10 @@ struct RawSys {
 		if (init) {
 			uint64_t c = init - 1; int flags = c % 4, tr = (c / 4) % 3, fill = (c / 12) % 2;
 			size_t used = fill ? 63 : 3;
+			if (init > 24) {      // typed content with element size 2, 4, 8: three elements, or one element short of the capacity
+				c = init - 25; flags = 0; tr = 3 + c % 3; fill = (c / 3) % 2;
+				size_t e = trsel(tr)->size; used = fill ? 64 - e : 3 * e;
+			}
 			mpt::buffer *b = LIB(mpt::_mpt_buffer_alloc(used, flags));
 			b->_content_traits = trsel(tr); b->_used = used;
 			h[0].b = b; m[0].tr = trsel(tr); m[0].b.assign(used, 1);
@@ -451,7 +459,10 @@ template <int API> std::string RawSys<API>::opname(int op)
 	case R_SWAP: return "swap(a0,a1)";
 	case S_ASSIGN: { static const char *wn[] = { "all", "inner", "empty-at-end", "prefix" }; return fmt("slice=a%d[%s]", in.a, wn[in.b]); }
 	case S_CLEAR: case XS_CLEAR: return "slice=empty";
-	case S_WRITE: case XS_WRITE: { static const char *zn[] = { "0", "1", "3", "avail-1", "avail", "avail+1" }; return fmt("%s(%d,%s,%s)", in.k == S_WRITE ? "mpt_slice_write" : "slice::write", in.a, in.c ? "data" : "NULL", zn[in.b]); }
+	case S_TAKE: { static const char *wn[] = { "all", "inner", "empty-at-end", "prefix" }; return fmt("slice=a0[%s];a0=empty", wn[in.b]); }
+	case XS_TAKE: return "slice=slice(a0);a0=array()";
+	case S_CONSUME: return in.a ? "slice.off+=len,len=0" : "slice.off+=1,len-=1";
+	case S_WRITE: case XS_WRITE: { static const char *zn[] = { "0", "1", "3", "avail-1", "avail", "avail+1", "avail+off" }; return fmt("%s(%d,%s,%s)", in.k == S_WRITE ? "mpt_slice_write" : "slice::write", in.a, in.c ? "data" : "NULL", zn[in.b]); }
 	case X_APPEND: return fmt("array::append(%s,%s)", Ln[in.a], in.b ? "data" : "NULL");
 	case X_INSERT: return fmt("array::insert(%s,%s,%s)", Pn[in.a], Ln[in.b], in.c ? "data" : "NULL");
 	case X_PREPEND: return fmt("array::prepend(%s,%s)", Ln[in.a], in.b ? "data" : "NULL");
@@ -474,9 +485,9 @@ static std::string raw_opname(int fam, int op);
 static const char *raw_hint(int k)
 {
 	static const char *n[] = { "mpt_array_append", "mpt_array_insert", "mpt_array_slice", "mpt_array_set", "mpt_array_reserve", "mpt_array_reduce", "mpt_printf", "mpt_array_string",
-		"mpt_buffer_cut", "mpt_buffer_insert", "mpt_buffer_set", "mpt_array_clone", "swap", "slice=", "slice=", "mpt_slice_write",
+		"mpt_buffer_cut", "mpt_buffer_insert", "mpt_buffer_set", "mpt_array_clone", "swap", "slice=", "slice=", "mpt_slice_write", "slice=", "slice.off+=",
 		"array::append", "array::insert", "array::prepend", "array::set", "array::operator=", "array::operator=", "array::operator=(slice)", "array::operator+=", "array::printf", "array::string",
-		"array::set(value)", "array::set(reference)", "slice=", "slice=", "slice::shift", "slice::trim", "slice::write" };
+		"array::set(value)", "array::set(reference)", "slice=", "slice=", "slice::shift", "slice::trim", "slice::write", "slice=" };
 	return n[k];
 }
 template <int API> bool RawSys<API>::apply(int op)
@@ -507,8 +518,8 @@ template <int API> bool RawSys<API>::apply(int op)
 	if (frontier && !g_child && !r.replaying) {
 		// structural class of everything the step can touch
 		Out k; k.u(API); k.c('/'); k.u(op); k.c('/');
-		if (in.k == S_WRITE || in.k == XS_WRITE || in.k == XS_SHIFT || in.k == XS_TRIM) { bufcanon_w(k, h[2].b); k.c('o'); k.cls(h[2].off, 3); k.c('n'); k.cls(h[2].len, 3); k.c(h[2].b && h[2].off + h[2].len == h[2].b->_used ? 'E' : 'I'); }
-		else if (in.k == C_CLONE || in.k == X_ASSIGN || in.k == X_ADD || in.k == X_SETREF || in.k == S_ASSIGN || in.k == S_CLEAR || in.k == XS_FROM || in.k == XS_CLEAR || in.k == X_FROMSLICE) {
+		if (in.k == S_WRITE || in.k == XS_WRITE || in.k == XS_SHIFT || in.k == XS_TRIM || in.k == S_CONSUME) { bufcanon_w(k, h[2].b); k.c('o'); k.cls(h[2].off, 3); k.c('n'); k.cls(h[2].len, 3); k.c(h[2].b && h[2].off + h[2].len == h[2].b->_used ? 'E' : 'I'); }
+		else if (in.k == C_CLONE || in.k == X_ASSIGN || in.k == X_ADD || in.k == X_SETREF || in.k == S_ASSIGN || in.k == S_CLEAR || in.k == XS_FROM || in.k == XS_CLEAR || in.k == X_FROMSLICE || in.k == S_TAKE || in.k == XS_TAKE) {
 			bufcanon_w(k, h[0].b); bufcanon_w(k, h[1].b); bufcanon_w(k, h[2].b); k.c('o'); k.cls(h[2].off, 3); k.c('n'); k.cls(h[2].len, 3);
 			if (h[0].b == h[1].b) k.c('='); if (h[0].b == h[2].b) k.c('~'); if (h[1].b == h[2].b) k.c('^');
 		}
@@ -524,14 +535,16 @@ template <int API> bool RawSys<API>::slice_write(const Inst &in, bool cxx)
 	mpt::buffer *b = h[2].b;
 	size_t cap = b ? (size_t) b->_size : 64, off = h[2].off, len = h[2].len, end = off + len;
 	long avail = cap >= end ? (long) (cap - end) : 0;
-	long Z[6] = { 0, 1, 3, avail - 1, avail, avail + 1 }, size;
+	long Z[7] = { 0, 1, 3, avail - 1, avail, avail + 1, avail + (long) off }, size;
 	size_t N = in.a;
 	if (!pick(Z, in.b, size) || N * size > PATN) return false;
 	bool okv; std::vector<uint8_t> oldview = view(m[2].b, off, len, okv);
 	if (!okv) return false;
 	const uint8_t *src = in.c ? PAT : ZERO;
 	std::string st = std::string(stcls(b)) + (b ? (end == b->_used ? ",window-at-end" : ",window-inside") : "");
-	std::string arg = !N ? "nblk=0" : (!size ? "size=0" : ((long) (N * size) <= avail ? "fits" : ((long) size <= avail ? "partly-fits" : "exceeds-capacity")));
+	std::string arg = !N ? "nblk=0" : (!size ? "size=0" : ((long) (N * size) <= avail ? "fits" : ((long) size <= avail ? "partly-fits" : ((long) size <= avail + (long) off ? "fits-after-compaction" : "exceeds-capacity"))));
+	bool consumed = b && !len && off, solew = b && !(b->get_flags() & (mpt::BufferShared | mpt::BufferImmutable));
+	const std::vector<uint8_t> oldfull = m[2].b;
 	std::string base = std::string("slice_write|") + st + "|" + arg + "|";
 	Desc &desc = dsc; desc.slice = true; desc.used = off; desc.cap = cap; desc.pos = size; desc.len = N;
 	cur_opn = "slice_write";
@@ -558,6 +571,23 @@ template <int API> bool RawSys<API>::slice_write(const Inst &in, bool cxx)
 				want.insert(want.end(), src, src + ret * size);
 			}
 			if (nv != want) { V(base + "wrong-content", desc + fmt(": returned %zd; slice %s", ret, diffdesc(nv, want).c_str())); return false; }
+			// the array behind the slice: either updated in place (window keeps its offset, bytes outside the written range untouched)
+			// or reduced to the window content (compaction / private copy); when only space was prepared: unchanged or cut at the window end
+			std::vector<uint8_t> inplace = oldfull;
+			size_t take = size ? (size_t) ret * size : 0;
+			if (end + take > inplace.size()) inplace.resize(end + take, 0);
+			std::copy(src, src + take, inplace.begin() + end);
+			bool a_ok = h[2].off == off && full == inplace;
+			bool b_ok = h[2].off == 0 && full == want;
+			bool c_ok = !size && h[2].off == off && end <= oldfull.size() && full == std::vector<uint8_t>(oldfull.begin(), oldfull.begin() + end);
+			if (!a_ok && !b_ok && !c_ok) {
+				V(base + "wrong-content", desc + fmt(": returned %zd; the window reads correctly but the array behind the slice (window now off=%zu len=%zu) is neither updated in place nor reduced to the window: %s", ret, (size_t) h[2].off, (size_t) h[2].len, diffdesc(full, h[2].off ? inplace : want).c_str()));
+				return false;
+			}
+			if (size && N) {
+				if (consumed) stat(solew ? "slice-write:consumed-window,sole" : "slice-write:consumed-window,shared");
+				if (solew && (long) size > avail && (long) size <= avail + (long) off) stat(take < oldfull.size() ? "slice-write:compaction,shorter-than-old-data" : "slice-write:compaction,longer-than-old-data");
+			}
 			m[2].b = full;
 		}
 	}
@@ -571,6 +601,15 @@ template <int API> bool RawSys<API>::apply_c(const Inst &in)
 	size_t used = b ? (size_t) b->_used : 0, cap = b ? (size_t) b->_size : 64, left = cap - used;
 	long P[5] = { 0, 1, (long) used - 1, (long) used, (long) used + 2 };
 	long L[6] = { 0, 1, 3, (long) left - 1, (long) left, (long) left + 1 };
+	const size_t E = esize_of(b);
+	if (E > 1) {      // multi-byte elements: mix of element multiples and values that are not
+		long la = (long) (left - left % E);
+		long Pe[5] = { 0, 1, (long) used - (long) E, (long) used, (long) used + 2 }, Le[6] = { 0, 1, (long) E, la - (long) E, la, la + (long) E };
+		memcpy(P, Pe, sizeof P); memcpy(L, Le, sizeof L);
+	}
+	auto aligned = [&](long a, long n) { return E == 1 || (a % (long) E == 0 && n % (long) E == 0); };
+	auto typed_stat = [&](long a, long n, bool refused) { if (E > 1) stat(aligned(a, n) ? (refused ? "typed-elements:aligned,refused" : "typed-elements:aligned,ok") : (refused ? "typed-elements:misaligned,refused" : "typed-elements:misaligned,accepted(not flagged)")); };
+	auto acls = [&](size_t a, size_t n, bool ow) { return argcls(a, n, used, cap, ow) + (aligned(a, n) ? "" : ",misaligned"); };
 	const char *st = stcls(b);
 	bool sole = b && !strcmp(st, "sole");
 	long pos = 0, len = 0;
@@ -602,7 +641,7 @@ template <int API> bool RawSys<API>::apply_c(const Inst &in)
 	case C_INSERT: case C_BINSERT: {
 		if (!pick(P, in.a, pos) || !pick(L, in.b, len) || (size_t) len > PATN) return false;
 		if (in.k == C_BINSERT && !sole) return false;
-		mk(in.k == C_INSERT ? "array_insert" : "buffer_insert", argcls(pos, len, used, cap, false)); nontrivial(b);
+		mk(in.k == C_INSERT ? "array_insert" : "buffer_insert", acls(pos, len, false)); nontrivial(b);
 		void *ret = 0;
 		fault = guarded([&] { mc::Lib l; ret = in.k == C_INSERT ? mpt_array_insert(arr(0), pos, len) : mpt_buffer_insert(b, pos, len); });
 		if (!fault && ret) {
@@ -613,12 +652,14 @@ template <int API> bool RawSys<API>::apply_c(const Inst &in)
 			if (writable(pos, len)) memcpy(ret, PAT, len);      // the inserted region is documented as uninitialised: the caller fills it
 			else { V(base + "wrong-result", desc + ": the returned region does not lie inside the buffer data"); return false; }
 		}
+		if (!fault) typed_stat(pos, len, !ret);
 		return check(base, desc, 0, !ret); }
 	case C_SLICE: {
 		if (!pick(P, in.a, pos) || !pick(L, in.b, len) || (size_t) len > PATN) return false;
-		mk("array_slice", argcls(pos, len, used, cap, true)); nontrivial(b);
+		mk("array_slice", acls(pos, len, true)); nontrivial(b);
 		void *ret = 0;
 		fault = guarded([&] { mc::Lib l; ret = mpt_array_slice(arr(0), pos, len); });
+		if (!fault) typed_stat(pos, len, !ret);
 		if (fault || !ret) return check(base, desc, 0, true);
 		realloc_seen();
 		if (!ptr_ok(ret, pos)) return bad_ptr(pos);
@@ -628,22 +669,25 @@ template <int API> bool RawSys<API>::apply_c(const Inst &in)
 		return check(base, desc + " (after writing through the returned address)", 0, false); }
 	case C_SET: case C_BSET: {
 		const uint8_t *src; long p;
+		const type_traits *ST = E > 1 ? b->_content_traits : T_Y;      // element type of the data: the buffer's own when it holds multi-byte elements
 		if (in.k == C_SET) {
 			if (!pick(L, in.a, len)) return false;
-			long O[6] = { 0, 1, -1, -(long) used - 1, (long) used, (long) used + 2 };
+			long n = (long) (used / E);
+			long O[6] = { 0, 1, -1, -n - 1, n, n + 2 };
 			for (int j = 0; j < in.b; ++j) if (O[j] == O[in.b]) return false;
-			pos = O[in.b]; p = pos < 0 ? (long) used + pos : pos;
+			pos = O[in.b]; p = (pos < 0 ? (long) used : 0) + pos * (long) E;
 		} else {
 			if (!sole || !pick(P, in.a, pos) || !pick(L, in.b, len)) return false;
 			p = pos;
 		}
 		if ((size_t) len > PATN) return false;
 		src = in.c ? PAT : ZERO;
-		mk(in.k == C_SET ? "array_set" : "buffer_set", p < 0 ? "pos<0" : argcls(p, len, used, cap, true)); nontrivial(b);
+		mk(in.k == C_SET ? "array_set" : "buffer_set", p < 0 ? "pos<0" : acls(p, len, true)); nontrivial(b);
 		void *ret = 0; long rc = -1;
-		if (in.k == C_SET) fault = guarded([&] { mc::Lib l; ret = mpt_array_set(arr(0), T_Y, len, in.c ? PAT : 0, pos); });
+		if (in.k == C_SET) fault = guarded([&] { mc::Lib l; ret = mpt_array_set(arr(0), ST, len, in.c ? PAT : 0, pos); });
 		else fault = guarded([&] { mc::Lib l; rc = mpt_buffer_set(b, b->_content_traits, pos, in.c ? PAT : 0, len); });
 		bool refused = in.k == C_SET ? !ret : rc < 0;
+		if (!fault && p >= 0) typed_stat(p, len, refused);
 		if (!fault && !refused && p >= 0) {
 			realloc_seen();
 			if (in.k == C_SET && !ptr_ok(ret, p)) return bad_ptr(p);
@@ -715,6 +759,7 @@ template <int API> bool RawSys<API>::apply_c(const Inst &in)
 		mk("buffer_cut", std::string((size_t) pos < used ? "pos<used" : ((size_t) pos == used ? "pos=used" : "pos>used")) + (!len ? ",len=0" : (must ? ",beyond-data" : ",inside")));
 		ssize_t rc = -1;
 		fault = guarded([&] { mc::Lib l; rc = mpt_buffer_cut(b, pos, len); });
+		if (!fault && !must) typed_stat(pos, len, rc < 0);
 		if (!fault && rc >= 0 && !must) { if (!len) mb.resize(pos); else mb.erase(mb.begin() + pos, mb.begin() + pos + len); }
 		return check(base, desc, 0, rc < 0, must); }
 	case C_CLONE: {
@@ -744,6 +789,26 @@ template <int API> bool RawSys<API>::apply_c(const Inst &in)
 		if (h[2].b) { mpt::buffer *ob = h[2].b; guarded([&] { ob->unref(); }); }
 		h[2].b = nb; h[2].off = o; h[2].len = n;
 		if (w >= 0) { m[2].b = m[w].b; m[2].tr = m[w].tr; } else { m[2].b.clear(); m[2].tr = 0; }
+		return check(base, desc, 2, false); }
+	case S_TAKE: {
+		// the slice takes the array's buffer over (reference moved): the slice becomes the only holder if the array was
+		mpt::buffer *nb = h[0].b;
+		if (!nb) return false;
+		size_t u = nb->_used, o = 0, n = u;
+		if (in.b == 1) { if (u < 3) return false; o = 1; n = u - 2; }
+		else if (in.b == 2) { if (u < 1) return false; o = u; n = 0; }
+		else if (in.b == 3) { if (u < 1) return false; n = u - 1; }
+		mk("slice-assign", "-");
+		if (h[2].b) { mpt::buffer *ob = h[2].b; guarded([&] { ob->unref(); }); }
+		h[2].b = nb; h[2].off = o; h[2].len = n; h[0].b = 0;
+		m[2].b = m[0].b; m[2].tr = m[0].tr; m[0].b.clear(); m[0].tr = 0;
+		return check(base, desc, 2, false); }
+	case S_CONSUME: {
+		// a reader that has processed data advances the window the way C callers (and slice::shift) do
+		size_t n = in.a ? h[2].len : 1;
+		if (!h[2].b || !h[2].len || (!in.a && h[2].len < 2)) return false;
+		mk("slice-consume", "-");
+		h[2].off += n; h[2].len -= n;
 		return check(base, desc, 2, false); }
 	case S_WRITE: return slice_write(in, false);
 	}
@@ -909,6 +974,17 @@ template <int API> bool RawSys<API>::apply_x(const Inst &in)
 		if (!fault && ok && !must && (h[2].off != woff || h[2].len != wlen)) { V(base + "wrong-result", desc + fmt(": window off=%zu len=%zu, expected %zu/%zu", (size_t) h[2].off, (size_t) h[2].len, woff, wlen)); return false; }
 		if (!fault && !ok && (h[2].off != off || h[2].len != n)) { V(base + "refused-but-changed", desc + ": refused but the window moved"); return false; }
 		return check(base, desc, 2, !ok, must); }
+	case XS_TAKE: {
+		if (!b) return false;
+		st = stcls(h[2].b);
+		mk("slice-assign", "-");
+		fault = guarded([&] { mc::Lib l; *sl() = mpt::slice(*arr(0)); *arr(0) = mpt::array(); });
+		if (!fault) {
+			size_t want = !b->_content_traits ? used : 0;
+			m[2].b = m[0].b; m[2].tr = m[0].tr; m[0].b.clear(); m[0].tr = 0;
+			if (h[2].off != 0 || h[2].len != want) { V(base + "wrong-result", desc + fmt(": window off=%zu len=%zu, expected 0/%zu", (size_t) h[2].off, (size_t) h[2].len, want)); return false; }
+		}
+		return check(base, desc, 2, false); }
 	case XS_WRITE: return slice_write(in, true);
 	}
 	return false;
@@ -1523,6 +1599,7 @@ void mc_jobs(Tier t, std::vector<std::string> &jobs)
 			jobs.push_back(fmt("%s:%d", fam, 1 + fl + 4 * tr + 12 * fill));
 		}
 	}
+	for (int k = 0; k < 6; ++k) jobs.push_back(fmt("c:%d", 25 + k));      // element size 2/4/8 x {three elements, one element below capacity}
 	jobs.push_back("t:0"); jobs.push_back("p:0"); jobs.push_back("m:0");
 }
 static void required(Run &r, char fam)
@@ -1530,9 +1607,12 @@ static void required(Run &r, char fam)
 	r.require("nontrivial");
 	static const char *c[] = { "array_append:ok", "array_append:refused", "array_clone:ok", "array_insert:ok", "array_reduce:ok", "array_reserve:ok", "array_set:ok", "array_set:refused", "array_slice:ok",
 		"buffer_cut:ok", "buffer_cut:refused", "buffer_insert:ok", "buffer_insert:refused", "buffer_set:ok", "buffer_set:refused", "printf:ok", "printf:refused", "slice_write:ok", "slice_write:refused",
-		"reallocated", "target-shared-or-immutable", 0 };
+		"reallocated", "target-shared-or-immutable", "slice-consume:ok", "slice-write:consumed-window,sole", "slice-write:consumed-window,shared",
+		"slice-write:compaction,shorter-than-old-data", "slice-write:compaction,longer-than-old-data",
+		"typed-elements:aligned,ok", "typed-elements:aligned,refused", "typed-elements:misaligned,refused", 0 };
 	static const char *x[] = { "array::append:ok", "array::insert:ok", "array::insert:refused", "array::set:ok", "array::operator=:ok", "array::operator=(slice):ok", "array::operator+=:ok", "printf:ok",
-		"slice::shift:ok", "slice::shift:refused", "slice::trim:ok", "slice::trim:refused", "slice_write:ok", "reallocated", "target-shared-or-immutable", 0 };
+		"slice::shift:ok", "slice::shift:refused", "slice::trim:ok", "slice::trim:refused", "slice_write:ok", "reallocated", "target-shared-or-immutable",
+		"slice-write:consumed-window,sole", "slice-write:consumed-window,shared", "slice-write:compaction,shorter-than-old-data", 0 };
 	static const char *t[] = { "insert:ok", "insert:refused", "set:ok", "set:refused", "get:ok", "get:refused", "resize:ok", "resize:refused", "reserve:ok", "detach:ok", "assign:ok", "reallocated", "target-shared-or-immutable", 0 };
 	static const char *p[] = { "pointer_array::insert:ok", "pointer_array::set:ok", "pointer_array::compact:ok", "pointer_array::swap:ok", "pointer_array::swap:refused", "assign:ok", "target-shared-or-immutable", 0 };
 	static const char *m[] = { "map::set:ok", "map::append:ok", "map::get:ok", "map::values:ok", "assign:ok", "target-shared-or-immutable", 0 };
